@@ -330,7 +330,7 @@ macro_rules! c17_glide_any_time {
     };
 }
 
-// @family prop=C13 name=c13_history macro=c13_history n=6 quick=1 thorough=1,2 tseeded=0 timeout=1800 stub=1
+// @family prop=C13,C14 name=c13_history macro=c13_history n=6 quick=1 thorough=1,2 tseeded=0 timeout=1800 stub=1
 // @about state handling through the public API only, slice = sample rate: new(fs); set_time(t0) with t0 in {0, 0.001, 0.01, 0.1, 1, 10} (symbolic choice; 0 = glide off); process(x0); process(x1); set_time(t1) (same choices, may be ignored by the dead band); process(x2); process(x3) -- inputs in {-1, -0.5, 0, 0.5, 1}: every returned output lies within the hull of the inputs seen so far and the previous RETURNED output (+- 8 ulp), in particular after the glide was switched off and on again; with a held input the output does not move away from it. tan is replaced here by ONE representative of its contract (the lower envelope), so that the coefficients are concrete per time choice: this harness decides the state handling of process()/set_time() (what is carried over, what a switched-off glide leaves behind), the numeric design is decided for the whole contract by c13_coeffs_legal / c13_weights_sum_to_one / c14_pole_placement
 macro_rules! c13_history {
     ($name:ident, $k:expr) => {
